@@ -71,15 +71,54 @@ class Outcome(object):
   pass
 
 
-def run_schedule(cfg, choices, horizon=900):
+THISFILE = __file__
+
+
+def state_key(sched):
+  """Canonical state at a decision point (stateful search).  A thread's continuation is
+  determined by its code position in lazy_io / this harness (co_name, f_lasti of every such
+  frame on its stack) and by the shared objects listed here; the only hidden local state, the
+  position of a player's chunk generator, equals the number of chunks its device received."""
+  import sys as _sys
+  out = _state["out"]
+  frames = _sys._current_frames()
+  ths = []
+  for t in sched.threads:
+    if not t.started or t.finished:
+      ths.append((t.vid, "new" if not t.started else "fin"))
+      continue
+    f = frames.get(t.os_thread.ident)
+    sig = []
+    while f is not None:
+      fn = f.f_code.co_filename
+      if (fn == MODFILE or fn == THISFILE) and f.f_code.co_name != "state_key":
+        sig.append((f.f_code.co_name, f.f_lasti))
+      f = f.f_back
+    ths.append((t.vid, t.pending[0] if t.pending else None, t.pending[4] if t.pending else None, tuple(sig)))
+  objs = tuple((o.label, getattr(getattr(o, "owner", None), "vid", None) if hasattr(o, "owner") else None,
+                getattr(o, "flag", None)) for o in VT._objects)
+  io = getattr(out, "io", None)
+  iost = (None,) if io is None else (io.finished, len(io._threads), len(io._recordings))
+  players = tuple((p.halting, p in io._threads if io is not None else None) for p in out.players)
+  devs = tuple((len(st.chunks), st.running, st.closed) for b in out.registry for st in b.all_streams)
+  term = tuple(b.terminated for b in out.registry)
+  return (tuple(ths), objs, iost, players, devs, term, out.pc, tuple(sorted(out.notes.items())))
+
+
+def run_schedule(cfg, choices, horizon=900, stateful=False):
   """Execute the program under the given choice prefix.  Returns an Outcome."""
   program, wait, use_with, channels = cfg
   VT._reset_labels()
   sched = core.Scheduler(choices, horizon=horizon, line_points=LINE_POINTS, modfile=MODFILE)
+  if stateful:
+    sched.state_fn = state_key
   _state["sched"] = sched
   registry = []
   core.FakePyAudio.current = (lambda: _state["sched"], registry)
   out = Outcome()
+  _state["out"] = out
+  out.registry = registry
+  out.pc = 0
   out.notes = {}
   out.players = []
   out.main_exc = None
@@ -102,6 +141,7 @@ def run_schedule(cfg, choices, horizon=900):
         out.players[op[1]].stop()
       elif op[0] == "close":
         io.close()
+      out.pc += 1
 
   def main():
     try:
@@ -158,7 +198,10 @@ def judge(cfg, out):
       if op[0] in ("pause", "resume", "stop"):
         last[op[1]] = op[0]
     waiting_players = [b for b in out.blocked if "event.wait" in b]
-    left_paused = [i for i, v in last.items() if v == "pause"]
+    stopped_by_program = set(op[1] for op in program if op[0] == "stop")
+    # "left paused": the last control operation is a pause AND the program never stopped that
+    # player (a stopped player has to finish whatever is done to it afterwards)
+    left_paused = [i for i, v in last.items() if v == "pause" and i not in stopped_by_program]
     if wait and waiting_players and left_paused and len(waiting_players) <= len(left_paused) \
        and any("thread.join" in b for b in out.blocked):
       return ("deadlock:close(wait=True)-joins-a-player-left-paused",
@@ -257,6 +300,83 @@ def explore(cfg, bound, max_exec=None):
   return stats, first
 
 
+def explore_stateful(cfg, max_exec=200000):
+  """All schedules, with no deviation bound: depth-first search that stops branching as soon as
+  a decision point's canonical state has been seen before (all its alternatives were, or will
+  be, explored from the first visit)."""
+  stack = [[]]
+  visited = {}
+  stats = {"executions": 0, "states": 0, "deadlocks": 0, "livelocks": 0, "capped": False,
+           "outcomes": set(), "revisits": 0}
+  first = None
+  while stack:
+    prefix = stack.pop()
+    out = run_schedule(cfg, prefix, stateful=True)
+    s = out.sched
+    stats["executions"] += 1
+    v = judge(cfg, out)
+    chunks = tuple(len(st.chunks) for b in out.backends for st in b.all_streams)
+    stats["outcomes"].add((out.status, chunks))
+    if v is not None:
+      if out.status == "deadlock": stats["deadlocks"] += 1
+      if out.status == "livelock": stats["livelocks"] += 1
+      if first is None or (first[0].startswith("deadlock:close(wait=True)") and not v[0].startswith("deadlock:close(wait=True)")):
+        first = v + (list(s.taken),)
+      if not v[0].startswith("deadlock:close(wait=True)"):
+        break
+    for i in range(len(prefix), len(s.points)):
+      if i >= len(s.point_keys):
+        break
+      key = s.point_keys[i]
+      cands = s.points[i]["cands"]
+      if key in visited:
+        if visited[key] != cands:
+          return stats, ("harness:state-abstraction", "two executions reached the same canonical state with "
+                         "different enabled operations: the state key is too coarse", visited[key], cands, list(s.taken))
+        stats["revisits"] += 1
+        break
+      visited[key] = cands
+      for alt in range(1, s.points[i]["n"]):
+        stack.append(list(s.taken[:i]) + [alt])
+    if stats["executions"] >= max_exec:
+      stats["capped"] = bool(stack)
+      break
+  stats["states"] = len(visited)
+  return stats, first
+
+
+def gen_stateful(run):
+  """Finite audios only (an endless player makes the unbounded schedule space infinite)."""
+  if run.tier == "quick":
+    n1, n2 = 2, 0
+  else:
+    n1, n2 = 3, 1
+  fin = ["empty", "one", "twohalf"]
+  for wait in (False, True):
+    for prog in programs(1, n1, run.rot(fin)):
+      yield ([prog, wait, False, 1],)
+    if run.tier != "quick":
+      for prog in programs(2, n2, ["one", "twohalf"]):
+        yield ([prog, wait, False, 1],)
+
+
+def run_stateful(case):
+  cfg = case[0]
+  stats, first = explore_stateful(cfg)
+  extra = {"stateful_programs": 1, "stateful_executions": stats["executions"], "stateful_states": stats["states"],
+           "stateful_deadlocks": stats["deadlocks"], "max_states_one_program": stats["states"],
+           "stateful_capped": int(stats["capped"])}
+  outcome = len(stats["outcomes"])
+  if first is not None:
+    key, what, exp, obs, choices = first
+    r = bad(key, what, exp, {"observed": obs, "schedule": choices, "program": cfg[0], "wait": cfg[1]}, True, outcome)
+    r.viol["replay_kind"] = "schedule"
+    r.viol["replay_case"] = [cfg, choices]
+    r.n, r.extra = stats["executions"], extra
+    return r
+  return R(None, True, outcome, stats["executions"], extra)
+
+
 # ------------------------------------------------------------------ programs
 TIERS = {
   "quick": {"one_player": {"ops": 3, "bound": 2}, "two_players": {"ops": 1, "bound": 1}},
@@ -351,6 +471,9 @@ def LIOname(vid):
 KINDS = OrderedDict([
   ("programs", Kind(gen_programs, run_program, chunk=1, timeout=3600,
                     rule="one case = one main program; all schedules within the deviation bound are executed")),
+  ("stateful", Kind(gen_stateful, run_stateful, chunk=1, timeout=3600,
+                    rule="one case = one main program with finite audio; ALL schedules (no deviation bound), "
+                         "pruned only where the canonical state at a decision point was seen before")),
   ("schedule", Kind(None, run_one_schedule, timeout=120, rule="replay of one recorded schedule")),
 ])
 
@@ -358,7 +481,14 @@ KINDS = OrderedDict([
 def main(run):
   k = run.per_kind["programs"]
   ex = k["extra"]
+  sf = run.per_kind["stateful"]["extra"]
   run.coverage.update({
+    "stateful_search": {"programs": sf.get("stateful_programs", 0), "executions": sf.get("stateful_executions", 0),
+                        "canonical_states": sf.get("stateful_states", 0),
+                        "max_states_in_one_program": sf.get("max_states_one_program", 0),
+                        "capped_programs": sf.get("stateful_capped", 0),
+                        "note": "unbounded pre-emptions; finite audios; every alternative at every first-visited "
+                                "canonical state is explored"},
     "states": ex["executions"], "transitions": ex["executions"],
     "traces_validated_against_impl": ex["executions"],
     "programs": ex["programs"],
